@@ -427,7 +427,7 @@ impl Property for C09 {
     fn cases(&self, tier: Tier) -> usize {
         match tier {
             Tier::Quick => 400,
-            Tier::Thorough => 6_000,
+            Tier::Thorough => 100_000,
         }
     }
     fn max_shrink_iters(&self) -> u32 {
